@@ -20,6 +20,11 @@ package keeper
 //@ decabstract
 //@ ensures C02/total-shares-track-supply: shareGap(ctx, p) == old(shareGap(ctx, p))
 //@ ensures C01/each-swap-works-on-a-pool-just-read: true
+// C18: the end-block fee conversion must not fail the block. REFUTED - a known finding (DESIGN A.6,
+// known_findings.json): every error of a conversion swap except "token out amount is zero" is returned, and
+// CollectGasFees / CollectPerpRevenue / UpdateLPRewards / EndBlocker pass it on; a price missing for a fee denom
+// whose best pool is an oracle pool is enough. Proved on the body only, never handed to callers.
+//@ local-ensures C18/fee-conversion-does-not-fail-the-block: err == nil
 // Used by contract in the two collection functions below (C13): the conversion swaps are made by and
 // for the fee account itself; that they leave the reward module's own balance alone is ASSUMED here (the
 // swap chain's per-address settlement is C04's subject).
